@@ -683,8 +683,16 @@ func oracle(sc *scenario, root string, i int, ob *stepObs, st *Stats, write, all
 			}
 			for _, m := range assetRef.FindAllStringSubmatch(string(f.Contents), -1) {
 				target := strings.TrimPrefix(physPath(filepath.Join(filepath.Dir(f.Path), m[1])), root)
-				if _, ok := after.files[target]; !ok {
-					// finding K (case-variant duplicate dropped) was repaired by /repo commit 11ec04b
+				_, ok := after.files[target]
+				// only a reference whose target was replaced by a case variant among the reported
+				// outputs is esbuild's doing (finding K, repaired by /repo commit 11ec04b); a missing
+				// target alone can be a string of a source file (an earlier output that the entry
+				// glob picked up as an input)
+				variantKept := false
+				for pp := range reported {
+					variantKept = variantKept || (pp != target && strings.EqualFold(pp, target))
+				}
+				if !ok && variantKept {
 					st.Fail("asset-reference-dangling", in(), map[string]interface{}{"script": strings.TrimPrefix(f.Path, root), "refers_to": m[1]}, "the asset exists")
 				}
 			}
@@ -761,6 +769,16 @@ type entryState struct {
 	impOut   string
 	dynamic  bool
 	deleted  bool
+}
+
+func aliveEntries(ents []*entryState) int {
+	n := 0
+	for _, e := range ents {
+		if !e.deleted {
+			n++
+		}
+	}
+	return n
 }
 
 // random rebuild history over one context (family A)
@@ -883,7 +901,7 @@ func genHistory(r *Rng, idx int) *scenario {
 					ne := &entryState{name: fmt.Sprintf("e%d", len(ents)+3), asset: bundle && r.Bool()}
 					ents = append(ents, ne)
 					stp.label = "add-entry"
-				case k == 8 && glob && len(ents) > 1:
+				case k == 8 && glob && !e.deleted && aliveEntries(ents) > 1:
 					e.deleted = true
 					stp.label = "remove-entry"
 					if o := outRel(e); o != "" {
